@@ -9,4 +9,5 @@ DevCsumBeforePatch == {"Checksum_BeforePatch"}
 DevScratch == {"Scratch_KeptOnError"}
 DevRcvKeeps == {"Receiver_KeepsBody"}
 RcvOps == {"encode", "decode", "refused", "next"}
+RcvOpsP == RcvOps \cup {"partial"}     \* with partial segments: random walks only (depth 5 would be 800,000 behaviours)
 =============================================================================
